@@ -63,6 +63,15 @@ func epsSM9() []*epT {
 		b21[i] = byte(0xa0 + i)
 	}
 	copy(b16, b21)
+	// authenticated C2 of every length class around one, two and three blocks (a guard written as a block count lets
+	// ragged lengths above two blocks through)
+	bN := func(n int) []byte {
+		b := make([]byte, n)
+		for i := range b {
+			b[i] = byte(0xa0 + i)
+		}
+		return b
+	}
 
 	eps := []*epT{
 		{name: "sm9.VerifyASN1", small: true, costly: true, fast: true, der: true,
@@ -86,9 +95,13 @@ func epsSM9() []*epT {
 			}},
 		rawDec("XOR", nil, rawCT("sm9ct-raw-xor", msgShort, nil)),
 		rawDec("SM4-CBC", sm9.SM4CBCEncrypterOpts, rawCT("sm9ct-raw-cbc", msgShort, sm9.SM4CBCEncrypterOpts),
-			rawHostile("sm9ct-raw-cbc-partial-block", sm9.SM4CBCEncrypterOpts, b21)),
+			rawHostile("sm9ct-raw-cbc-partial-block", sm9.SM4CBCEncrypterOpts, b21),
+			rawHostile("sm9ct-raw-cbc-33", sm9.SM4CBCEncrypterOpts, bN(33)), rawHostile("sm9ct-raw-cbc-47", sm9.SM4CBCEncrypterOpts, bN(47)),
+			rawHostile("sm9ct-raw-cbc-49", sm9.SM4CBCEncrypterOpts, bN(49)), rawHostile("sm9ct-raw-cbc-1", sm9.SM4CBCEncrypterOpts, bN(1))),
 		rawDec("SM4-ECB", sm9.SM4ECBEncrypterOpts, rawCT("sm9ct-raw-ecb", msgShort, sm9.SM4ECBEncrypterOpts),
-			rawHostile("sm9ct-raw-ecb-partial-block", sm9.SM4ECBEncrypterOpts, b21)),
+			rawHostile("sm9ct-raw-ecb-partial-block", sm9.SM4ECBEncrypterOpts, b21),
+			rawHostile("sm9ct-raw-ecb-33", sm9.SM4ECBEncrypterOpts, bN(33)), rawHostile("sm9ct-raw-ecb-47", sm9.SM4ECBEncrypterOpts, bN(47)),
+			rawHostile("sm9ct-raw-ecb-1", sm9.SM4ECBEncrypterOpts, bN(1))),
 		rawDec("SM4-CFB", sm9.SM4CFBEncrypterOpts, rawCT("sm9ct-raw-cfb", msgShort, sm9.SM4CFBEncrypterOpts)),
 		rawDec("SM4-OFB", sm9.SM4OFBEncrypterOpts, rawCT("sm9ct-raw-ofb", msgShort, sm9.SM4OFBEncrypterOpts)),
 		{name: "sm9.DecryptASN1", costly: true, fast: true, der: true,
@@ -101,6 +114,8 @@ func epsSM9() []*epT {
 				hostile("sm9ct-der-cbc-partial-block", sm9.SM4CBCEncrypterOpts, b21),
 				hostile("sm9ct-der-ecb-partial-block", sm9.SM4ECBEncrypterOpts, b21),
 				hostile("sm9ct-der-cbc-iv-only", sm9.SM4CBCEncrypterOpts, b16),
+				hostile("sm9ct-der-cbc-33", sm9.SM4CBCEncrypterOpts, bN(33)), hostile("sm9ct-der-cbc-47", sm9.SM4CBCEncrypterOpts, bN(47)),
+				hostile("sm9ct-der-ecb-33", sm9.SM4ECBEncrypterOpts, bN(33)),
 			},
 			call: func(x *cx, in []byte) (ok bool) {
 				x.g("sm9.DecryptASN1", func() { _, err := sm9.DecryptASN1(kr.SM9EncUser(), sm9UID, in); ok = err == nil })
